@@ -355,6 +355,51 @@ def nearest_formula(rep, prog, rule):
             else:
                 rep.bad(rule, key, c.at, "%s is  %s  but the property requires  %s" % (
                     key, show(act)[:200], show(exp)[:200]))
+    # any other way the source rows are obtained (a fast path that takes consecutive rows):
+    # the first row must be trunc(top + scale/2) under the facts that guard that path
+    for c in f.calls():
+        if (c.method or "") != "iter_rows" or len(c.args) < 2:
+            continue
+        recv = fmt(sym.operand(c.args[0], (c.bb, "term")))
+        if "dst_view" in recv:
+            continue
+        act = P.norm(sym.operand(c.args[1], (c.bb, "term")))
+        key = "row-source|iter_rows"
+        if act is None:
+            rep.unk(rule, key, c.at, "start row does not normalise (%s)" % P.failed)
+            continue
+        # facts: dst dimension == crop dimension makes the scale 1
+        eqs = {}
+        for cond, val in sym.facts_at(c.bb):
+            if cond[0] == "bin" and ((cond[1] == "Eq" and val is True) or (cond[1] == "Ne" and val is False)):
+                a_, b_ = P.norm(cond[2]), P.norm(cond[3])
+                if a_ is not None and b_ is not None and len(a_) == 1 and len(b_) == 1:
+                    (ma, ca), = a_.items()
+                    (mb, cb), = b_.items()
+                    if ca == 1 and cb == 1 and len(ma) == 1 and len(mb) == 1:
+                        if ma[0][0] == "g":
+                            eqs[ma[0]] = b_
+                        elif mb[0][0] == "g":
+                            eqs[mb[0]] = a_
+        e_step = p_mul(fld("height"), p_atom(("inv", freeze(getter("height")))))
+        e_start = p_add(fld("top"), p_mul(HALF, e_step))
+        e_start = poly.map_atoms(e_start, lambda a: eqs.get(a))
+        inner = None
+        if len(act) == 1:
+            (m, cc), = act.items()
+            if cc == 1 and len(m) == 1 and m[0][0] == "trunc":
+                inner = dict(m[0][1])
+        if inner is None:
+            rep.unk(rule, key, c.at, "start row %s: shape not recognised" % show(act)[:120])
+        elif equal(inner, e_start):
+            rep.ok(rule, key, c.at, "consecutive rows from trunc(%s)" % show(inner)[:100])
+        elif [a for a in atoms_of(inner) if a not in atoms_of(e_start) and a[0] != "f"]:
+            rep.unk(rule, key, c.at, "start row %s uses other quantities" % show(inner)[:120])
+        else:
+            rep.bad(rule, key, c.at, "this path of resample_nearest takes consecutive source rows "
+                    "starting at trunc(%s); the property requires row floor(top + (y + 1/2) * "
+                    "crop_height / dst_height), i.e. a start of trunc(%s) on this path" % (
+                        show(inner)[:120], show(e_start)[:120]))
     # accumulators of the implementations
     n = 0
     for g in sorted(prog.fns.values(), key=lambda z: z.id):
